@@ -430,6 +430,8 @@ void splinetable<Alloc>::write_fits(const std::string& filePath) const{
 		fitsfile* fits;
 		fits_cleanup(fitsfile* f):fits(f){}
 		~fits_cleanup(){
+			if(!fits)
+				return;
 			int error=0;
 			fits_close_file(fits, &error);
 			fits_report_error(stderr, error);
@@ -437,6 +439,15 @@ void splinetable<Alloc>::write_fits(const std::string& filePath) const{
 	} cleanup(fits);
 	
 	write_fits_core(fits);
+	
+	//Most of the output is only flushed when the file is closed, so this is
+	//where a full disk or an I/O error shows up; it must not pass as success.
+	cleanup.fits=nullptr;
+	fits_close_file(fits, &error);
+	if (error != 0){
+		fits_report_error(stderr, error);
+		throw std::runtime_error(("CFITSIO failed to flush and close "+filePath).c_str());
+	}
 }
 	
 template<typename Alloc>
